@@ -67,6 +67,15 @@ CLAIMED.update({
             "Cryptographic strength of HMAC-SHA256/Ed25519 assumed; in-process peers without RequireLocalAuth are trusted by documented policy.", "DESIGN.md 4/C09"),
 })
 
+CLAIMED.update({
+    "C10": ("differential property testing: each generated history runs with a generated decision-table Authorizer and again, without one, on the filtered and pre-rewritten history; canonical observations and H1 table snapshots must agree",
+            "Exploration: any request type routed around the gate, partial effect before a denial, wrong reply type/id/URI, or consultation of exempt sessions shows up as a difference between the two runs or in the per-denial ERROR accounting. Sampling.",
+            "Request ids kept aligned between the runs; observations compared as per-step multisets with ids renamed; random invocation policy excluded.", "DESIGN.md 4/C10"),
+    "C11": ("differential non-interference testing: generated two-realm histories with coinciding ids and cross-aimed requests run with and without the second realm; realm A's canonical observations must be equal and B must never see A's session ids",
+            "Exploration: a shared table or id generator, a realm lookup by the wrong key, or a crash/teardown spilling over from RemoveRealm shows up as a difference in A's observations. Sampling.",
+            "Observations compared as per-step multisets with ids renamed; random invocation policy excluded.", "DESIGN.md 4/C11"),
+})
+
 NOT_YET = {}
 
 def main():
